@@ -10,6 +10,7 @@ import (
 	"fmt"
 	"math/big"
 	"strings"
+	"sync"
 
 	"github.com/cloudflare/pat-go/ecdsa"
 	"github.com/cloudflare/pat-go/ed25519"
@@ -97,12 +98,31 @@ func kbContext(name string) []byte {
 	switch name {
 	case "":
 		return nil
-	case "rare1", "rare2":
+	case "rare1", "rare2", "rare3":
 		return []byte(name) // placeholder; the Ed25519 driver substitutes a searched context (edRareContext)
 	case "long":
 		return []byte(strings.Repeat("context-", 40))
 	}
 	return []byte(name)
+}
+
+// kbDigestFor: digests whose length is relative to the byte length of the group order (ob): exactly as long (where
+// the excess-bit shift of hashToInt starts to matter on P-521), one byte more, and all-ones digests (as an integer not
+// below the order).
+func kbDigestFor(seed int64, ob int, name string) []byte {
+	switch name {
+	case "dord": // exactly as long as the order, leading bits set
+		return append([]byte{0xff}, hashBytes(seed, "kb-digest-ord", ob-1)...)
+	case "dord0": // exactly as long as the order, leading byte small
+		return append([]byte{0x01}, hashBytes(seed, "kb-digest-ord0", ob-1)...)
+	case "dord+1":
+		return append([]byte{0x80}, hashBytes(seed, "kb-digest-ord1", ob)...)
+	case "dff": // all ones, twice the length of the order
+		return bytes.Repeat([]byte{0xff}, 2*ob)
+	case "dffo": // all ones, exactly the length of the order
+		return bytes.Repeat([]byte{0xff}, ob)
+	}
+	return kbDigest(seed, name)
 }
 
 func kbDigest(seed int64, name string) []byte {
@@ -129,12 +149,135 @@ type kbStep struct {
 	sig int
 }
 
+// execKStress: the key-blinding operations are functions of their arguments - also when many goroutines call them at
+// once (the functions keep no state a caller could see). Every (key, blind, context) combination is evaluated alone
+// against the independent reference and then by G goroutines concurrently; the event counts results that differ.
+func execKStress(c *ctx, in ev) []ev {
+	scheme := gS(in, "scheme")
+	G, rounds := gI(in, "g"), gI(in, "rounds")
+	type combo struct {
+		blind, ctx []byte
+		blinded    []byte // reference
+	}
+	e := ev{"op": "KStress", "scheme": scheme, "goroutines": G, "calls": 0, "wrong": 0, "detail": "", "panic": ""}
+	var mu sync.Mutex
+	wrong := func(format string, a ...any) {
+		mu.Lock()
+		e["wrong"] = e["wrong"].(int) + 1
+		if e["detail"] == "" {
+			e["detail"] = fmt.Sprintf(format, a...)
+		}
+		mu.Unlock()
+	}
+	e["panic"] = guard(func() {
+		var one func(k int)
+		calls := 0
+		if scheme == "ed25519" {
+			priv := ed25519.NewKeyFromSeed(hashBytes(c.seed, "kstress-ed", 32))
+			pub := append([]byte{}, priv[32:]...)
+			combos := []combo{}
+			for i := 0; i < 6; i++ {
+				b, cx := edBlindBytes(c.seed, fmt.Sprintf("b%d", 1+i%3)), []byte(fmt.Sprintf("stress-ctx-%d", i/2))
+				ref, ok := refEdBlind(pub, b, cx)
+				if !ok {
+					panic("reference")
+				}
+				combos = append(combos, combo{b, cx, ref})
+			}
+			msg := []byte("stress message")
+			one = func(k int) {
+				cb := combos[k%len(combos)]
+				bl, err := ed25519.BlindPublicKeyWithContext(append([]byte{}, pub...), append([]byte{}, cb.blind...), append([]byte{}, cb.ctx...))
+				if err != nil || !bytes.Equal(bl, cb.blinded) {
+					wrong("blind: combination %d differs from the reference", k%len(combos))
+					return
+				}
+				back, err := ed25519.UnblindPublicKeyWithContext(append([]byte{}, bl...), append([]byte{}, cb.blind...), append([]byte{}, cb.ctx...))
+				if err != nil || !bytes.Equal(back, pub) {
+					wrong("unblind: combination %d does not give the original key back", k%len(combos))
+					return
+				}
+				sig := ed25519.BlindKeySignWithContext(priv, msg, append([]byte{}, cb.blind...), append([]byte{}, cb.ctx...))
+				if !stded.Verify(stded.PublicKey(cb.blinded), msg, sig) {
+					wrong("blind signature of combination %d does not verify under the blinded key", k%len(combos))
+				}
+			}
+			calls = 3
+		} else {
+			curve := kbCurves[strings.TrimPrefix(scheme, "ecdsa-")]
+			sk, _ := rawKey(curve, kbScalar(c.seed, curve, "kstress-sk").Bytes())
+			type ecCombo struct {
+				bk       *ecdsa.PrivateKey
+				ctx      []byte
+				refX, rY *big.Int
+			}
+			combos := []ecCombo{}
+			for i := 0; i < 6; i++ {
+				bb := kbBlindBytes(c.seed, curve, fmt.Sprintf("b%d", 1+i%3))
+				bk, _ := rawKey(curve, bb)
+				cx := []byte(fmt.Sprintf("stress-ctx-%d", i/2))
+				f := refBlindScalar(curve, new(big.Int).SetBytes(bb), cx)
+				x, y := curve.ScalarMult(sk.X, sk.Y, f.Bytes())
+				combos = append(combos, ecCombo{bk, cx, x, y})
+			}
+			digest := hashBytes(c.seed, "kstress-digest", 32)
+			one = func(k int) {
+				cb := combos[k%len(combos)]
+				bl, err := ecdsa.BlindPublicKeyWithContext(curve, &sk.PublicKey, cb.bk, append([]byte{}, cb.ctx...))
+				if err != nil || bl.X.Cmp(cb.refX) != 0 || bl.Y.Cmp(cb.rY) != 0 {
+					wrong("blind: combination %d differs from the reference", k%len(combos))
+					return
+				}
+				back, err := ecdsa.UnblindPublicKeyWithContext(curve, bl, cb.bk, append([]byte{}, cb.ctx...))
+				if err != nil || back.X.Cmp(sk.X) != 0 || back.Y.Cmp(sk.Y) != 0 {
+					wrong("unblind: combination %d does not give the original key back", k%len(combos))
+					return
+				}
+				r, sv, err := ecdsa.BlindKeySignWithContext(cryptorand.Reader, sk, cb.bk, digest, append([]byte{}, cb.ctx...))
+				if err != nil || !stdecdsa.Verify(&stdecdsa.PublicKey{Curve: curve, X: cb.refX, Y: cb.rY}, digest, r, sv) {
+					wrong("blind signature of combination %d does not verify under the blinded key", k%len(combos))
+				}
+			}
+			calls = 3
+		}
+		for k := 0; k < 6; k++ { // alone first
+			one(k)
+		}
+		var wg sync.WaitGroup
+		start := make(chan struct{})
+		for g := 0; g < G; g++ {
+			g := g
+			wg.Add(1)
+			go func() {
+				defer wg.Done()
+				defer func() {
+					if p := recover(); p != nil {
+						wrong("panic in goroutine: %v", p)
+					}
+				}()
+				<-start
+				for r := 0; r < rounds; r++ {
+					one(g + r)
+				}
+			}()
+		}
+		close(start)
+		wg.Wait()
+		e["calls"] = calls * (6 + G*rounds)
+	})
+	return []ev{e}
+}
+
 func execKeyBlind(c *ctx, in ev) []ev {
+	if gS(in, "op") == "KStress" {
+		return execKStress(c, in)
+	}
 	scheme := gS(in, "scheme")
 	if scheme == "ed25519" {
 		return execKeyBlindEd(c, in)
 	}
 	curve := kbCurves[strings.TrimPrefix(scheme, "ecdsa-")]
+	ob := (curve.Params().N.BitLen() + 7) / 8 // byte length of the group order
 	out := []ev{{"op": "KNew", "scheme": scheme, "deterministic": false}}
 	keyIDs := &interner{m: map[string]string{}, p: "K"}
 	sigIDs := &interner{m: map[string]string{}, p: "S"}
@@ -151,13 +294,13 @@ func execKeyBlind(c *ctx, in ev) []ev {
 		if k, ok := bks[name]; ok {
 			return k
 		}
-		k, _ := ecdsa.CreateKey(curve, kbBlindBytes(c.seed, curve, name))
+		k, _ := rawKey(curve, kbBlindBytes(c.seed, curve, name))
 		bks[name] = k
 		return k
 	}
 	sks := map[string]*ecdsa.PrivateKey{}
 	for _, name := range []string{"s1", "s2", "s3"} {
-		sk, _ := ecdsa.CreateKey(curve, kbScalar(c.seed, curve, "sk-"+name).Bytes())
+		sk, _ := rawKey(curve, kbScalar(c.seed, curve, "sk-"+name).Bytes())
 		sks[name] = sk
 		pool = append(pool, &sk.PublicKey)
 		out = append(out, ev{"op": "Pub", "sk": name, "out": keyIDs.id(enc(&sk.PublicKey))})
@@ -208,12 +351,12 @@ func execKeyBlind(c *ctx, in ev) []ev {
 					e["b"], e["ctx"] = bname, cname
 					bk := blindKey(bname)
 					if noCtx(s) {
-						r, sv, err = ecdsa.BlindKeySign(cryptorand.Reader, sks[skn], bk, kbDigest(c.seed, dname))
+						r, sv, err = ecdsa.BlindKeySign(cryptorand.Reader, sks[skn], bk, kbDigestFor(c.seed, ob, dname))
 					} else {
-						r, sv, err = ecdsa.BlindKeySignWithContext(cryptorand.Reader, sks[skn], bk, kbDigest(c.seed, dname), cb.get(cname))
+						r, sv, err = ecdsa.BlindKeySignWithContext(cryptorand.Reader, sks[skn], bk, kbDigestFor(c.seed, ob, dname), cb.get(cname))
 					}
 				} else {
-					r, sv, err = ecdsa.Sign(cryptorand.Reader, sks[skn], kbDigest(c.seed, dname))
+					r, sv, err = ecdsa.Sign(cryptorand.Reader, sks[skn], kbDigestFor(c.seed, ob, dname))
 				}
 			})
 			if err == nil && e["panic"] == "" && r != nil {
@@ -253,7 +396,7 @@ func execKeyBlind(c *ctx, in ev) []ev {
 			}
 			idx, si := jInt(s["in"])%len(pool), jInt(s["sig"])%len(sigs)
 			dname := s["d"].(string)
-			d := kbDigest(c.seed, dname)
+			d := kbDigestFor(c.seed, ob, dname)
 			var fork, std bool
 			p := guard(func() {
 				fork = ecdsa.Verify(pool[idx], d, sigs[si].r, sigs[si].s)
@@ -292,6 +435,17 @@ func edRareContext(seed int64, name string) []byte {
 		limit = 248
 	}
 	blind := edBlindBytes(seed, "b1")
+	if name == "rare3" {
+		// the 32 hash bytes, read as a little-endian integer, lie just above 2^252 (top two bytes 00 10): the value
+		// is not reduced modulo L - the boundary case of turning the hash into a scalar
+		for i := 0; ; i++ {
+			ctx := []byte(fmt.Sprintf("%s-%d", name, i))
+			h := sha512.Sum512(append(append(append([]byte{}, blind...), 0), ctx...))
+			if h[31] == 0x10 && h[30] == 0x00 {
+				return ctx
+			}
+		}
+	}
 	for i := 0; ; i++ {
 		ctx := []byte(fmt.Sprintf("%s-%d", name, i))
 		f := refEdBlindScalar(blind, ctx)
@@ -303,7 +457,7 @@ func edRareContext(seed int64, name string) []byte {
 }
 
 func edCtx(seed int64, name string) []byte {
-	if name == "rare1" || name == "rare2" {
+	if name == "rare1" || name == "rare2" || name == "rare3" {
 		return edRareContext(seed, name)
 	}
 	return kbContext(name)
@@ -388,12 +542,12 @@ func execKeyBlindEd(c *ctx, in ev) []ev {
 					bname, cname := s["b"].(string), s["ctx"].(string)
 					e["b"], e["ctx"] = bname, cname
 					if noCtx(s) {
-						sig = ed25519.BlindKeySign(sks[skn], kbDigest(c.seed, dname), edBlindBytes(c.seed, bname))
+						sig = ed25519.BlindKeySign(sks[skn], kbDigestFor(c.seed, 32, dname), edBlindBytes(c.seed, bname))
 					} else {
-						sig = ed25519.BlindKeySignWithContext(sks[skn], kbDigest(c.seed, dname), edBlindBytes(c.seed, bname), ectx(cname))
+						sig = ed25519.BlindKeySignWithContext(sks[skn], kbDigestFor(c.seed, 32, dname), edBlindBytes(c.seed, bname), ectx(cname))
 					}
 				} else {
-					sig = ed25519.Sign(sks[skn], kbDigest(c.seed, dname))
+					sig = ed25519.Sign(sks[skn], kbDigestFor(c.seed, 32, dname))
 				}
 			})
 			if e["panic"] == "" && len(sig) == 64 {
@@ -408,7 +562,7 @@ func execKeyBlindEd(c *ctx, in ev) []ev {
 			}
 			idx, si := jInt(s["in"])%len(pool), jInt(s["sig"])%len(sigs)
 			dname := s["d"].(string)
-			d := kbDigest(c.seed, dname)
+			d := kbDigestFor(c.seed, 32, dname)
 			var fork, std bool
 			p := guard(func() {
 				fork = ed25519.Verify(pool[idx], d, sigs[si])
@@ -424,7 +578,7 @@ func genKeyBlind(c *ctx, emit func(ev)) {
 	r := newRand(c.seed, "keyblind")
 	blinds := []string{"b1", "b2", "b3", "b4", "lead0", "geN", "one"}
 	ctxs := []string{"", "ctxA", "ctxB", "long"}
-	digests := []string{"d0", "d1", "d2", "dlong", "dlong0", "dlongf"}
+	digests := []string{"d0", "d1", "d2", "dlong", "dlong0", "dlongf", "dord", "dord0", "dord+1", "dff", "dffo"}
 	sks := []string{"s1", "s2", "s3"}
 	want := func(s string) bool { return c.arg == "" || strings.Contains(","+c.arg+",", ","+s+",") }
 	mkSeq := func(n int) []any {
@@ -515,8 +669,11 @@ func genKeyBlind(c *ctx, emit func(ev)) {
 	rareEd := func() []any {
 		steps := []any{}
 		np := 3
-		for _, cx := range []string{"rare1", "rare2"} {
+		for _, cx := range []string{"rare1", "rare2", "rare3"} {
 			for si := 0; si < 3; si++ {
+				if cx == "rare3" {
+					steps = append(steps, ev{"op": "BSign", "sk": sks[si], "b": "b1", "ctx": cx, "d": "d1"})
+				}
 				steps = append(steps, ev{"op": "Blind", "in": si, "b": "b1", "ctx": cx})
 				steps = append(steps, ev{"op": "Unblind", "in": np, "b": "b1", "ctx": cx}) // must give the original key back
 				steps = append(steps, ev{"op": "Unblind", "in": si, "b": "b1", "ctx": cx})
@@ -548,6 +705,7 @@ func genKeyBlind(c *ctx, emit func(ev)) {
 	}
 	for _, sc := range schemes {
 		emit(ev{"op": "KSeq", "scheme": sc, "steps": structured(), "kind": "structured"})
+		emit(ev{"op": "KStress", "scheme": sc, "g": 16, "rounds": c.tierInt(400, 2000), "kind": "stress"})
 		if sc == "ed25519" {
 			emit(ev{"op": "KSeq", "scheme": sc, "steps": rareEd(), "kind": "rare-inverse"})
 		} else {
